@@ -348,6 +348,7 @@ func (c *Ctx) finish() int {
 	cov["worker_requests"] = c.Pool.Requests
 	cov["worker_deaths"] = c.Pool.Deaths
 	cov["worker_timeouts"] = c.Pool.Timeouts
+	cov["worker_watchdog_cases_completed_on_retry"] = c.Pool.SlowRetries
 	if len(c.notes) > 0 {
 		cov["notes"] = c.notes
 	}
